@@ -7,6 +7,7 @@ package ctfe
 import (
 	"context"
 	"crypto/ecdsa"
+	"crypto/elliptic"
 	"net/http"
 
 	ct "github.com/google/certificate-transparency-go"
@@ -35,7 +36,7 @@ const (
 func Harness_C08_addChain() {
 	be, rl := &envBackend{}, &envReqLog{}
 	li := envLogInfo(be, rl)
-	sg := &envSigner{pub: &ecdsa.PublicKey{}, sig: vBytes("sig", 2)}
+	sg := &envSigner{pub: &ecdsa.PublicKey{Curve: elliptic.P256()}, sig: vBytes("sig", 2)}
 	li.signer = sg
 	nchain := 1 + vChoice("chain-len", 2)
 	envChain = nil
